@@ -1254,3 +1254,95 @@ func TestD35_NameAffinityThroughMultiInputConverter(t *testing.T) {
 		}
 	}
 }
+
+// D38 (C20): KahnSort removed the edges of its working copy with
+// RemoveEdge(n, m), handing it hash codes; RemoveEdge hashes its arguments
+// again. When a hash code is itself a VertexHashable with another code nothing
+// was removed, and an acyclic graph ended in the "graph has cycles" panic.
+type d38Key struct{ id int }
+
+func (k d38Key) Hashcode() interface{} { return k.id + 1000 }
+
+type d38V struct{ id int }
+
+func (v *d38V) Hashcode() interface{} { return d38Key{v.id} }
+
+func TestD38_KahnSortWithHashableHashCodes(t *testing.T) {
+	var g graph.Graph
+	a, b, c := &d38V{1}, &d38V{2}, &d38V{3}
+	g.Add(a)
+	g.Add(b)
+	g.Add(c)
+	g.AddEdge(a, b)
+	g.AddEdge(b, c)
+	var order graph.TopoOrder
+	func() {
+		defer func() {
+			if r := recover(); r != nil {
+				t.Fatalf("KahnSort panicked on an acyclic graph: %v", r)
+			}
+		}()
+		order = g.KahnSort()
+	}()
+	if len(order) != 3 || order[0] != graph.Vertex(a) || order[1] != graph.Vertex(b) || order[2] != graph.Vertex(c) {
+		t.Fatalf("order: %v", order)
+	}
+}
+
+// D36 (C20): TopoShortestPath added weights without regard for overflow (the
+// sibling of D27), and a vertex none of whose in-edges could be relaxed was
+// treated as a second source at distance 0.
+func TestD36_TopoShortestPathOverflow(t *testing.T) {
+	const maxInt = int(^uint(0) >> 1)
+	var g graph.Graph
+	for i := 0; i < 3; i++ {
+		g.Add(i)
+	}
+	// root 0; 0 -> 2 costs 5; the detour 0 -> 1 -> 2 costs maxInt + 1
+	g.AddEdgeWeighted(0, 2, 5)
+	g.AddEdgeWeighted(0, 1, maxInt)
+	g.AddEdgeWeighted(1, 2, 1)
+	dist, edgeTo := g.TopoShortestPath(g.KahnSort())
+	if dist[2] != 5 {
+		t.Errorf("distance to 2 is %d, want 5", dist[2])
+	}
+	if p := g.EdgeToPath(2, edgeTo); len(p) != 2 || p[0] != 0 {
+		t.Errorf("path to 2: %v, want [0 2]", p)
+	}
+	dd, _ := g.Dijkstra(0)
+	if dd[2] != dist[2] {
+		t.Errorf("TopoShortestPath says %d, Dijkstra %d", dist[2], dd[2])
+	}
+}
+
+// D37 (C18): the largest int doubled as "not reached yet" in Dijkstra, so a
+// vertex whose true distance is exactly that value was never given a
+// predecessor (the relaxation required a strictly smaller distance) and
+// EdgeToPath made it look unreachable.
+func TestD37_DijkstraDistanceExactlyMaxInt(t *testing.T) {
+	const maxInt = int(^uint(0) >> 1)
+	var g graph.Graph
+	for i := 0; i < 5; i++ {
+		g.Add(i)
+	}
+	g.AddEdgeWeighted(0, 1, maxInt)   // directly at the largest distance
+	g.AddEdgeWeighted(0, 2, maxInt-5) // ... and through an intermediate vertex
+	g.AddEdgeWeighted(2, 3, 5)
+	g.AddEdgeWeighted(3, 4, 0) // and one step further at no cost
+	distTo, edgeTo := g.Dijkstra(0)
+	for v, want := range map[int][]int{1: {0, 1}, 3: {0, 2, 3}, 4: {0, 2, 3, 4}} {
+		if distTo[v] != maxInt {
+			t.Errorf("distance to %d is %d, want %d", v, distTo[v], maxInt)
+		}
+		p := g.EdgeToPath(v, edgeTo)
+		if len(p) != len(want) {
+			t.Errorf("path to %d is %v, want %v", v, p, want)
+			continue
+		}
+		for i := range p {
+			if p[i] != want[i] {
+				t.Errorf("path to %d is %v, want %v", v, p, want)
+			}
+		}
+	}
+}
